@@ -1,3 +1,5 @@
+//go:build !verif_nogem
+
 package main
 
 import (
